@@ -1036,9 +1036,9 @@ func gen(seed uint64, tier string, o *hx.Out) {
 		g.desc = bufio.NewWriterSize(f, 1<<20)
 		defer func() { g.desc.Flush(); f.Close() }()
 	}
-	nEncTarget, nRandKeys := 250, 6
+	nEncTarget, nRandKeys := 340, 6
 	if g.thorough {
-		nEncTarget, nRandKeys = 2500, 40
+		nEncTarget, nRandKeys = 4200, 40
 	}
 	n2 := new(big.Int).Sub(curveN, big.NewInt(2))
 	g.keys = []key{
@@ -1070,6 +1070,22 @@ func gen(seed uint64, tier string, o *hx.Out) {
 			if all || j == 0 {
 				vi++
 				g.enc(g.randKey(), g.variant(vi), g.msgOf(n), g.randRho(), "length sweep", some())
+			}
+		}
+	}
+
+	// ---- A2. every KDF block boundary up to 4096: for each k in 1..128 the lengths 32k-1, 32k, 32k+1 in the four forms
+	// (mode 0, mode 1, ASN.1, a mode outside {0,1}).  thorough: all 3 x 128 x 4; quick: one cell per k, the offset and the
+	// form rotating with k from a seed-dependent start, so that different seeds cover different cells
+	forms := []int{0, 1, varEA, 2}
+	rotOff, rotForm := g.r.Intn(3), g.r.Intn(4)
+	for k := 1; k <= 128; k++ {
+		for off := -1; off <= 1; off++ {
+			for fi, form := range forms {
+				if !g.thorough && (off+1 != (k+rotOff)%3 || fi != (k/3+rotForm)%4) {
+					continue
+				}
+				g.enc(g.randKey(), form, g.msgOf(32*k+off), g.randRho(), fmt.Sprintf("KDF block boundary 32*%d%+d", k, off), some())
 			}
 		}
 	}
@@ -1181,12 +1197,19 @@ func gen(seed uint64, tier string, o *hx.Out) {
 	}
 
 	// ---- G. rejection catalogue
-	mLens := []int{1, 19, 64, 33, 19, 1, 33, 64}
-	n0, n1, nA := 3, 2, 3
+	// plaintext lengths of the catalogue bases: always one in the third KDF block (65), one at a block end (96),
+	// one just behind it (97) and one long one (>= 1000); the others rotate over {1, 19, 33, 64} with the seed
+	small := []int{1, 19, 33, 64}
+	rs := g.r.Intn(4)
+	l0 := []int{65, small[rs%4], 1000 + g.r.Intn(64)}
+	l1 := []int{97, small[(rs+1)%4]}
+	lA := []int{small[(rs+2)%4], 96, small[(rs+3)%4]}
 	if g.thorough {
-		mLens = []int{1, 19, 64, 33, 2, 31, 32, 63, 16, 48, 3, 50}
-		n0, n1, nA = 12, 8, 8
+		l0 = []int{65, 1, 19, 64, 33, 2, 31, 32, 63, 96, 97, 1000 + g.r.Intn(64)}
+		l1 = []int{97, 16, 48, 3, 50, 65, 96, 1, 1000 + g.r.Intn(64)}
+		lA = []int{19, 96, 33, 65, 97, 1, 64, 1000 + g.r.Intn(64)}
 	}
+	n0, n1, nA := len(l0), len(l1), len(lA)
 	baseKey := func(i int) key {
 		switch i % 4 {
 		case 0:
@@ -1199,20 +1222,20 @@ func gen(seed uint64, tier string, o *hx.Out) {
 		return g.randKey()
 	}
 	for i := 0; i < n0; i++ {
-		k, msg := baseKey(i), g.r.Bytes(mLens[i%len(mLens)])
+		k, msg := baseKey(i), g.r.Bytes(l0[i])
 		if ct := g.enc(k, 0, msg, g.randRho(), "base of the mode-0 rejection catalogue", false); ct != nil {
 			g.mutRaw(k, 0, msg, ct)
 			g.pool = append(g.pool, pooled{"base of the rejection catalogue", ct})
 		}
 	}
 	for i := 0; i < n1; i++ {
-		k, msg := baseKey(i+1), g.r.Bytes(mLens[(i+3)%len(mLens)])
+		k, msg := baseKey(i+1), g.r.Bytes(l1[i])
 		if ct := g.enc(k, 1, msg, g.randRho(), "base of the mode-1 rejection catalogue", false); ct != nil {
 			g.mutRaw(k, 1, msg, ct)
 		}
 	}
 	for i := 0; i < nA; i++ {
-		k, msg, rho := baseKey(i), g.r.Bytes(mLens[(i*2)%len(mLens)]), g.randRho()
+		k, msg, rho := baseKey(i), g.r.Bytes(lA[i]), g.randRho()
 		if i == 0 { // x1 with a leading zero byte: the INTEGER is 31 bytes long
 			k, rho = kFix, rhoFor(hexInt(lzNonces[0].k), 3)
 		}
